@@ -222,9 +222,66 @@ def events_step(layout, op, kind, mode, second=None):
     return body
 
 
+def remove_during_dispatch():
+    """A callback removes a callback (itself or a later one) while an event is
+    being dispatched: every callback still registered at its turn is invoked
+    exactly once, a removed one is not invoked after its removal."""
+    def body(d: Draw):
+        client = recording_client()
+        build_pre(d, "A", client, symbolic_text=False)
+        log = []
+        ids = {}
+        victim = d.choice(("A", "B", "C"), "removed-callback")
+        by_criteria = d.bool("by-criteria")
+        pos = d.choice((0, 1), "position-of-the-remover")     # first or second in registration order
+
+        def remover(e):
+            log.append("R")
+            if victim == "A":
+                tgt = "R"
+            else:
+                tgt = victim
+            if by_criteria:
+                client.rmonevent(callback=cbs[tgt])
+            else:
+                client.rmonevent(uuid=ids[tgt])
+
+        def mk(tag):
+            def cb(e):
+                log.append(tag)
+            return cb
+        cbs = {"R": remover, "B": mk("B"), "C": mk("C")}
+        order = ["R", "B", "C"] if pos == 0 else ["B", "R", "C"]
+        for t in order:
+            ids[t] = client.onevent(callback=cbs[t], device="D1")
+        # exactly one event: the value of D1/V1/E1 changes, the state does not
+        m = set_message("Text", "D1", "V1", "Ok", [child_for("Text", "one", "E1", "changed")])
+        try:
+            client.process_message(m)
+        except Exception:
+            return verdict(False, "process_message raised")
+        first = list(log)
+        tgt = "R" if victim == "A" else victim
+        want = []
+        removed = False
+        for t in order:
+            if removed and t == tgt:
+                continue
+            want.append(t)
+            if t == "R":
+                removed = True
+        if MODE.trace is not None:
+            note("order", order, "victim", tgt, "log", log, "want (first event)", want)
+        return verdict(first == want,
+                       "removal during dispatch made a callback miss the event or run after its removal")
+    return body
+
+
 def conditions(tier):
     out = []
     thorough = tier == "thorough"
+    out.append(Condition("dispatch/remove-during", make_condition(remove_during_dispatch(), 1, 4, 2),
+                         about="a callback removes itself or a later callback while the event is dispatched", encodes=ENC, timeout=600))
     for layout, kinds in (("A", ("Text", "Switch")), ("B", ("BLOB", "Light"))):
         for kind in kinds:
             for op in ("set", "def"):
